@@ -4,50 +4,57 @@
 use libfuzzer_sys::fuzz_target;
 use voracles::checks::cursor::{run_with, Op, ALIGNMENTS};
 
-fn decode(data: &[u8]) -> (usize, Option<usize>, Vec<Op>) {
-    let mut i = 0;
-    let mut next = |n: usize| -> u64 {
+struct Rd<'a> {
+    d: &'a [u8],
+    i: usize,
+}
+impl Rd<'_> {
+    fn next(&mut self, n: usize) -> u64 {
         let mut x = 0u64;
         for _ in 0..n {
-            x = (x << 8) | *data.get(i).unwrap_or(&0) as u64;
-            i += 1;
+            x = (x << 8) | *self.d.get(self.i).unwrap_or(&0) as u64;
+            self.i += 1;
         }
         x
-    };
-    let align = next(1) as usize % ALIGNMENTS.len();
-    let cap = match next(1) {
+    }
+}
+
+fn decode(data: &[u8]) -> (usize, Option<usize>, Vec<Op>) {
+    let mut r = Rd { d: data, i: 0 };
+    let align = r.next(1) as usize % ALIGNMENTS.len();
+    let cap = match r.next(1) {
         0..=127 => None,
         c => Some((c as usize - 128) * 3),
     };
     let mut ops = vec![];
-    while i < data.len() && ops.len() < 400 {
-        let op = match next(1) % 12 {
+    while r.i < data.len() && ops.len() < 400 {
+        let op = match r.next(1) % 12 {
             0 | 1 => {
-                let n = next(1) as usize % 64;
-                Op::Write((0..n).map(|_| next(1) as u8).collect())
+                let n = r.next(1) as usize % 64;
+                Op::Write((0..n).map(|_| r.next(1) as u8).collect())
             }
             2 => {
-                let n = 1 + next(1) as usize % 63;
-                Op::WriteAll((0..n).map(|_| next(1) as u8).collect())
+                let n = 1 + r.next(1) as usize % 63;
+                Op::WriteAll((0..n).map(|_| r.next(1) as u8).collect())
             }
             3 => Op::Flush,
-            4 | 5 => Op::Read(next(1) as usize % 64),
-            6 => Op::SeekStart(match next(1) {
+            4 | 5 => Op::Read(r.next(1) as usize % 64),
+            6 => Op::SeekStart(match r.next(1) {
                 255 => u64::MAX,
                 254 => 1 << 16,
                 x => x * 17 % 5000,
             }),
-            7 => Op::SeekCurrent(match next(1) {
+            7 => Op::SeekCurrent(match r.next(1) {
                 255 => i64::MAX,
                 254 => i64::MIN,
                 x => x as i64 - 128,
             }),
-            8 => Op::SeekEnd(match next(1) {
+            8 => Op::SeekEnd(match r.next(1) {
                 255 => i64::MAX,
                 254 => i64::MIN,
                 x => x as i64 - 128,
             }),
-            9 => Op::SetPosition(next(2) % 6000),
+            9 => Op::SetPosition(r.next(2) % 6000),
             10 => Op::AsBytes,
             _ => Op::StreamPosition,
         };
